@@ -49,15 +49,23 @@ def fault_point(name, pos, proc=None):
             (FAULT[1] == pos and FAULT[2] == n) or (FAULT[1] == pos + '+' and n >= FAULT[2])):
         # (every other listener fault is an exception that cannot even be turned into text: reporting it must not become a second fault)
         exc = (UnprintableError if (name.startswith('listener.') or name in ('step', 'callback')) and n % 2 == 0 else ProgError)('X:%s' % key)
+        exc.ctx_hook = next((h for h in reversed(HOOK_STACK) if h in PP_HOOKS), HOOK_STACK[-1] if HOOK_STACK else None)
         exc.proc_terminated = proc.has_terminated() if proc is not None and getattr(proc, '_state', None) is not None else None
         FIRED.append(exc)
         raise exc
 
 
+HOOK_STACK = []  # names of the wrapped hooks currently executing (a fault in a helper such as set_status is judged by where it is called from)
+
+
 def _wrap(name):
     def hook(self, *args, **kwargs):
         fault_point(name, 'before', self)
-        getattr(super(FaultProg, self), name)(*args, **kwargs)
+        HOOK_STACK.append(name)
+        try:
+            getattr(super(FaultProg, self), name)(*args, **kwargs)
+        finally:
+            HOOK_STACK.pop()
         fault_point(name, 'after', self)
 
     hook.__name__ = name
@@ -70,6 +78,11 @@ class FaultProg(programs.ProgBase):
         super().__init__(*args, **kwargs)
         fault_point('__init__', 'after')
 
+    def set_status(self, status):
+        # an overridden public helper that the pause / play hooks (and the steps) call
+        fault_point('set_status', 'in', self)
+        super().set_status(status)
+
     def _enter(self, i, args, kwargs):
         super()._enter(i, args, kwargs)
         fault_point('step', 'entry', self)
@@ -79,7 +92,8 @@ class FaultProg(programs.ProgBase):
         return super()._leave(i)
 
 
-for _h in HOOKS + PP_HOOKS + ['init', 'on_create']:
+GENERIC = ['on_entering', 'on_entered', 'on_exiting']  # the state-event hooks behind all the others (first occurrence: entering CREATED)
+for _h in HOOKS + PP_HOOKS + ['init', 'on_create'] + GENERIC:
     setattr(FaultProg, _h, _wrap(_h))
 generated.register(FaultProg, 'FaultProg')
 
@@ -240,13 +254,15 @@ def gen_cases(tier, seed):
     return cases
 
 
-def _classify(point):
+def _classify(point, occ=None):
     if point.startswith('listener.'):
         return 'listener'
     if point in PP_HOOKS:
         return 'pauseplay'
     if point in CONSTRUCT:
         return 'construct'
+    if point in ('on_entering', 'on_entered') and occ == 1:
+        return 'construct'  # the transition into CREATED is part of the constructor call
     if point in ('step', 'callback', 'on_output_emitting', 'on_output_emitted'):
         return 'user'
     return 'hook'
@@ -322,6 +338,13 @@ def run_case(case):
             constructed = False
             rec = None
             raised = exc
+        except Exception as exc:  # noqa: BLE001
+            # the run itself broke down: expected only when a fault during construction was swallowed and the harness went on
+            # with a process that is not usable (judged below as construct-swallowed); anything else is a harness error
+            if fault is None or _classify(fault[0], fault[2]) != 'construct' or not FIRED:
+                raise
+            rec = None
+            raised = exc
     finally:
         FAULT = None
     fired = list(FIRED)
@@ -329,7 +352,7 @@ def run_case(case):
         return {'viol': [], 'obs': obs, 'key': [case['name'], case['scenario'], None], 'nontrivial': False,
                 'sample': {'program': case['name'], 'scenario': case['scenario'], 'fault': None, 'final': rec['final']['state']}}
     point, pos, occ = fault
-    cls = _classify(point)
+    cls = _classify(point, occ)
     where = '%s/%s' % (point, pos)
     sig_tail = '%s:%s' % (where, case['scenario'])
     if not fired:
@@ -339,6 +362,11 @@ def run_case(case):
     obs['points'][where] = 1
     X = fired[0]
     xdesc = lifecycle.describe_exc(X)
+    if point == 'set_status':
+        # judged by the code it was called from: a pause / play hook, another hook, or a step
+        cls = 'pauseplay' if X.ctx_hook in PP_HOOKS else ('hook' if X.ctx_hook else 'user')
+        obs['class'] = {cls: 1}
+        obs['set_status_faults'] = 1
     if cls == 'construct':
         if constructed:
             viol.append(V('construct-swallowed', 'construct-swallowed:' + sig_tail, 'exception raised in %s during construction did not propagate to the caller' % where))
